@@ -81,7 +81,7 @@ def _norm(t, f):
         return ("P", t[1])
     if k == "call":
         name = t[1]
-        if name == "core::ops::Index::index":
+        if name == "core::ops::index::Index::index":
             return ("call", name, tuple(_norm(S.strip_ref(a), f) for a in t[2]))
         return ("call", name, tuple(_norm(S.strip_ref(a), f) for a in t[2]))
     if k == "aggr":
@@ -127,7 +127,7 @@ def _role_view(prog, key, tup):
         if t[0] == "P":
             return ("ROLE", names.get(t[1], "p%d" % t[1]))
         if t[0] == "call":
-            if t[1] == "core::ops::Index::index":
+            if t[1] == "core::ops::index::Index::index":
                 return ("ROLE", "sig")      # &self.signatures[which]  ==  the signer being processed
             return ("call", t[1], tuple(go(a) for a in t[2]))
         if t[0] == "aggr":
